@@ -394,13 +394,19 @@ func (i *Interface) PutMany(dbName string) (put func(record.Record) error) {
 					return
 				}
 				// apply options
+				r.Lock()
 				i.options.Apply(r)
+				remove := r.Meta().IsDeleted()
+				ttl := r.Meta().GetRelativeExpiry()
+				r.Unlock()
 				// pass along
 				select {
 				case dbBatch <- r:
 				case <-aborted:
 					return
 				}
+				// Keep the read cache in line with what was handed to the storage.
+				i.updateCache(r, false, remove, ttl)
 			case <-time.After(1 * time.Second):
 				// bail out
 				internalErr = errors.New("timeout: putmany unused for too long")
